@@ -218,6 +218,48 @@ def r6_none_tests(idx, r):
     r8_none_tests(idx, r, modules=("armi.reactor.components.component", AXM), floor=5)
 
 
+def r8_factor_table(idx, r):
+    """ExpansionData keeps ONE table of factors per component for the life of the object (thermal and prescribed factors may be supplied in
+    several batches before the assembly is expanded).  (a) only __init__ binds the table; every other writer stores entries into it;
+    (b) the thermal per-component routine stores an entry on EVERY path - a path that returns without doing so leaves the factor of the previous
+    step in force for a component whose temperature did not change; (c) registering a target writes the registry AND the block's
+    axialExpTargetComponent parameter unconditionally - later expansions with fresh ExpansionData read the name from the block."""
+    ED = AXM + ".expansionData.ExpansionData"
+    c = idx.cls(ED)
+    n = 0
+    for name, f in c.methods.items():
+        for s_ in iter_stores(f.node):
+            if s_.chain == "self._expansionFactors" and s_.kind in ("assign", "aug", "del"):
+                n += 1
+                r.require(name == "__init__", f"{name}:table-bound-only-at-construction", f, node=s_.stmt,
+                          msg=f"`{norm(s_.stmt)[:70]}` replaces the whole table of expansion factors: factors supplied earlier on the same ExpansionData (another batch of components, thermal "
+                              "factors before prescribed ones) are discarded and those components do not expand")
+    sf = c.methods.get("setExpansionFactors")
+    pc = c.methods.get("_perComponentThermalExpansionFactors")
+    st = c.methods.get("_setExpansionTarget")
+    if sf is None or pc is None or st is None:
+        raise AnchorMissing("ExpansionData.setExpansionFactors/_perComponentThermalExpansionFactors/_setExpansionTarget")
+    ent = [s_ for s_ in iter_stores(sf.node) if s_.kind == "subscript" and s_.chain == "self._expansionFactors"] + \
+          [s_ for s_ in iter_stores(sf.node) if s_.kind == "mutcall" and s_.chain == "self._expansionFactors" and s_.method == "update"]
+    r.require(bool(ent), "setExpansionFactors:stores-entries", sf, msg="the prescribed factors are stored as entries of the existing table")
+    comp = pc.params()[1]
+    fl = Flow(pc.node, lambda nd: ["set"] if isinstance(nd, ast.Assign) and any(norm(t) == f"self._expansionFactors[{comp}]" for t in nd.targets) else []).run()
+    bad = [e for e in fl.normal_exits() if e.state.get("set", (0, 0))[0] < 1]
+    r.require(not bad, "_perComponentThermalExpansionFactors:entry-on-every-path", pc, node=bad[0].node if bad and bad[0].node is not None else pc.node,
+              msg="a path leaves without storing this component's factor: the factor computed in a previous step stays in the table and the component is expanded again although "
+                  "its temperature did not change")
+    blk, tgt = st.params()[1], st.params()[2]
+    for what, pred in (("registry", lambda nd: isinstance(nd, ast.Assign) and any(norm(t) == f"self._componentDeterminesBlockHeight[{tgt}]" for t in nd.targets)),
+                       ("block-parameter", lambda nd: isinstance(nd, ast.Assign) and any(norm(t) == f"{blk}.p.axialExpTargetComponent" for t in nd.targets) and norm(nd.value) == f"{tgt}.name")):
+        fl = Flow(st.node, lambda nd, pred=pred: ["w"] if pred(nd) else []).run()
+        bad = [e for e in fl.normal_exits() if e.state.get("w", (0, 0))[0] < 1]
+        r.require(not bad, f"_setExpansionTarget:{what}-always-written", st,
+                  msg=f"the target's {what} is not written on every path: a re-designated target is known to this ExpansionData but not to the block (or vice versa), and the next "
+                      "expansion grows the block by another component than the designated one")
+    if n < 1:
+        raise AnalysisError("no binding of ExpansionData._expansionFactors found")
+
+
 def run(idx, chk):
     chk.explanation = (
         "C12: axiallyExpandAssembly typed with a role generator for the growth fraction (height x growth, densities x growth^-1); block bottoms on the "
@@ -237,3 +279,5 @@ def run(idx, chk):
                  necessary="'by any temperature field': a reference temperature of exactly 0 C is a temperature")
     chk.run_rule("R12.7", "determineTargetComponent registers the component it picks on every path", lambda r: r7_target_always_registered(idx, r), floor=1,
                  necessary="'moves each block boundary with its designated target component'")
+    chk.run_rule("R12.8", "one factor table per ExpansionData: bound at construction only, an entry stored on every thermal path; targets registered on block and registry alike", lambda r: r8_factor_table(idx, r), floor=5,
+                 necessary="a block's height follows its designated target and a zero net temperature change restores the assembly")
